@@ -6,6 +6,7 @@ import (
 	"runtime"
 	"sort"
 	"strings"
+	"sync/atomic"
 	"syscall"
 	"time"
 
@@ -18,12 +19,16 @@ import (
 
 // Step is one input event of a history.
 type Step struct {
-	T    string `json:"t"`              // "key" | "abs" | "rep" (key repeat noise) | "midi" (MIDI-in message)
+	T    string `json:"t"`              // "key" | "abs" | "rep" (key repeat noise) | "midi" (MIDI-in message) | "other" (any other kernel event)
+	Typ  uint16 `json:"typ,omitempty"`  // "other": the event type (EV_SYN with a code other than SYN_REPORT, EV_MSC, EV_REL, EV_LED, EV_SW, ...)
 	Sub  string `json:"sub,omitempty"`  // sub-handler name (Handler.Name)
 	Node int    `json:"node,omitempty"` // 1: the second event node of the device that carries the same sub-handler name
 	Code uint16 `json:"code"`
 	Val  int32  `json:"val"`
 	Midi []byte `json:"midi,omitempty"`
+	// NoFence: the next step follows at once; what this step emitted is collected with the next step that is fenced
+	// (bursts of events against a slow reader of the MIDI output, see EngineOpts.QueueCap)
+	NoFence bool `json:"nofence,omitempty"`
 }
 
 func (s Step) String() string {
@@ -37,6 +42,8 @@ func (s Step) String() string {
 		return fmt.Sprintf("abs %s/%d=%d", s.Sub, s.Code, s.Val)
 	case "rep":
 		return fmt.Sprintf("repeat %s/%d", s.Sub, s.Code)
+	case "other":
+		return fmt.Sprintf("event type 0x%02x %s/%d=%d", s.Typ, s.Sub, s.Code, s.Val)
 	}
 	return fmt.Sprintf("%s %v", s.T, s.Midi)
 }
@@ -76,6 +83,10 @@ type EngineOpts struct {
 	// whole run; these steps are played on it before the history starts, its keys stay as they are, and it is
 	// disconnected after the device under test. Nothing it does may show in the other device's output.
 	Bystander []Step
+	// QueueCap > 0: the device's MIDI output queue has this capacity (the application's is 8) and is read by a consumer that
+	// takes ReaderDelayUs microseconds per message (a MIDI port at hardware speed); everything still arrives, later.
+	QueueCap      int
+	ReaderDelayUs int
 }
 
 // axisInfosOf collects the AbsInfo of the axes one sub-handler (event node) reports.
@@ -191,6 +202,8 @@ func toInputEvent(dev *input.Device, s Step) *input.InputEvent {
 		ev.Value = 2
 	case "abs":
 		ev.Type = evdev.EV_ABS
+	case "other":
+		ev.Type = evdev.EvType(s.Typ)
 	}
 	return &input.InputEvent{Source: handlerForNode(dev, s.Sub, s.Node), Event: ev}
 }
@@ -218,6 +231,42 @@ func RunDevice(cfg config.Config, d *Desc, steps []Step, opts EngineOpts) (res R
 		opts.OpenRGBPort = 1 // nothing listens there; the LED goroutine never gets past its first wait in these runs
 	}
 	out := make(chan midi.Event, 8192)
+	devOut := out
+	quiesce := func() {}
+	if opts.QueueCap > 0 {
+		devOut = make(chan midi.Event, opts.QueueCap)
+		var inflight int32
+		stopFwd := make(chan struct{})
+		defer close(stopFwd)
+		go func(q chan midi.Event) {
+			for {
+				select {
+				case e := <-q:
+					atomic.StoreInt32(&inflight, 1)
+					if opts.ReaderDelayUs > 0 {
+						time.Sleep(time.Duration(opts.ReaderDelayUs) * time.Microsecond)
+					}
+					out <- e
+					atomic.StoreInt32(&inflight, 0)
+				case <-stopFwd:
+					return
+				}
+			}
+		}(devOut)
+		q := devOut
+		quiesce = func() {
+			// every message of the steps so far is in the queue or beyond it (the device had taken the fence): wait until the
+			// slow reader has passed them all on
+			for stable := 0; stable < 3; {
+				if len(q) == 0 && atomic.LoadInt32(&inflight) == 0 {
+					stable++
+				} else {
+					stable = 0
+				}
+				time.Sleep(20 * time.Microsecond)
+			}
+		}
+	}
 	in := make(chan *input.InputEvent)
 	sigs := make(chan os.Signal, 1024)
 	midiIn := make(chan midi.Event)
@@ -230,7 +279,7 @@ func RunDevice(cfg config.Config, d *Desc, steps []Step, opts EngineOpts) (res R
 				res.Panic = fmt.Sprintf("NewDevice: %v", p)
 			}
 		}()
-		dev = device.NewDevice(inDev, config.DeviceConfig{ConfigFile: "verif.toml", ConfigType: "user", Config: cfg}, out, midiIn, opts.NoLogs, opts.OpenRGBPort, sigs)
+		dev = device.NewDevice(inDev, config.DeviceConfig{ConfigFile: "verif.toml", ConfigType: "user", Config: cfg}, devOut, midiIn, opts.NoLogs, opts.OpenRGBPort, sigs)
 	}()
 	if res.Panic != "" {
 		return res
@@ -301,10 +350,19 @@ func RunDevice(cfg config.Config, d *Desc, steps []Step, opts EngineOpts) (res R
 			res.Steps = append(res.Steps, StepResult{State: dev.State()})
 			continue
 		}
+		if s.NoFence {
+			if !send(toInputEvent(&inDev, s)) {
+				alive = false
+				break
+			}
+			res.Steps = append(res.Steps, StepResult{})
+			continue
+		}
 		if !send(toInputEvent(&inDev, s)) || !send(syn) {
 			alive = false
 			break
 		}
+		quiesce()
 		sr := StepResult{Out: drain(out), State: dev.State()}
 		for {
 			select {
@@ -332,9 +390,11 @@ func RunDevice(cfg config.Config, d *Desc, steps []Step, opts EngineOpts) (res R
 		res.Stuck = allStacks()
 		return res
 	}
+	quiesce()
 	res.Tail = drain(out)
 	// nothing may be emitted once processing has ended
 	runtime.Gosched()
+	quiesce()
 	res.Late = drain(out)
 	return res
 }
